@@ -389,4 +389,47 @@ theorem tls13_unprotected {S} (P : Prims S) (c : Cfg) (h13 : c.is13 = true) (hci
           · simp only [htl, if_true] at hacc; absurd_recv hacc
           · simp only [htl, if_false, hne23, if_true] at hacc; absurd_recv hacc
 
+/-- in TLS ≤ 1.2 whatever `recvRecord` accepts was accepted by the decryption dispatch with the
+    header's own content type: the outer layers (length caps, early-data window, limit checks) can
+    only turn an accept into a reject -/
+theorem recvRecord_ok_decrypt_aux {S} (P : Prims S) (c : Cfg) (h13 : c.is13 = false) (rv rv' : Recv S) (h : Rec)
+    (t : UInt8) (p : Bytes) (hacc : recvRecord P c rv h = .ok rv' t p) :
+    decrypt P c rv h = .ok (rv'.st, p) ∧ t = h.typ := by
+  unfold recvRecord at hacc
+  by_cases ho1 : h.body.length > rv.recvLimit + 1024 + 1024
+  · simp only [ho1, if_true] at hacc; absurd_recv hacc
+  · simp only [ho1, if_false] at hacc
+    by_cases ho2 : (c.tls13record && decide (h.body.length > rv.recvLimit + 256)) = true
+    · simp only [ho2, if_true] at hacc; absurd_recv hacc
+    · simp only [ho2, if_false, h13, Bool.false_and, Bool.false_eq_true] at hacc
+      cases hd : decrypt P c rv h with
+      | error e =>
+        rw [hd] at hacc
+        cases e <;> simp only at hacc <;> absurd_recv hacc
+      | ok x =>
+        obtain ⟨st', data⟩ := x
+        rw [hd] at hacc
+        simp only at hacc
+        by_cases hov : data.length > rv.recvLimit
+        · simp only [hov, if_true] at hacc; absurd_recv hacc
+        · simp only [hov, if_false, RecvResult.ok.injEq] at hacc
+          obtain ⟨e1, e2, e3⟩ := hacc
+          subst e1; subst e2; subst e3
+          exact ⟨rfl, rfl⟩
+
+/-- which unprotect path the dispatch takes, by configuration (TLS ≤ 1.2, outside the early-data window) -/
+theorem decrypt_path_aux {S} (P : Prims S) (c : Cfg) (h13 : c.is13 = false) (rv : Recv S) (hearly : rv.earlyOk = false) (h : Rec) :
+    decrypt P c rv h =
+      (if c.cipher == .aead then decAead P c rv.st h
+       else if c.etm then (match c.cipher with
+          | .null => decEtm P c false rv.st h.typ h.body
+          | _ => decEtm P c true rv.st h.typ h.body)
+       else match c.cipher with
+          | .block => decCbc P c rv.st h.typ h.body
+          | .null => decStream P c false rv.st h.typ h.body
+          | _ => decStream P c true rv.st h.typ h.body) := by
+  unfold decrypt
+  simp only [h13, hearly, Bool.false_and, Bool.false_eq_true, if_false, Bool.and_false]
+  split <;> rename_i heq <;> exact heq.symm
+
 end Tls.Rec
